@@ -103,6 +103,7 @@ inductive Event | data (v : Val) | err | eof
 def STAR : UInt8 := 42
 def DOLLAR : UInt8 := 36
 def MINUS : UInt8 := 45
+def COLON : UInt8 := 58
 
 def encodeBulk (a : Bytes) : Bytes := DOLLAR :: dec a.length ++ [CR, LF] ++ a ++ [CR, LF]
 def encodeBulks (args : List Bytes) : Bytes := (args.map encodeBulk).flatten
@@ -186,6 +187,7 @@ def parseLoop (st : St) (inp : Bytes) : List Event :=
             r.1 ++ parseLoop r.2 rest
           | _ => .err :: parseLoop St.init rest
         else if msg.length < 3 then .err :: parseLoop St.init rest
+        else if msg.head? == some COLON && (parseInt body).isNone then .err :: parseLoop St.init rest   -- parseSingleLine: strconv.ParseInt fails
         else
           let r := deliver st (.line (msg.take (msg.length - 2)))
           r.1 ++ parseLoop r.2 rest
